@@ -275,8 +275,23 @@ def delBuckets (k : SetKind) (ex : Option SetObj) (es : List Elem) : List String
         | .pat _, .strs _ => ["sd-partial-" ++ kindStr k]
         | _, _ => [])
 
+/-- a prefix / neighbor string that does not parse, in front of / behind / between good elements -/
+def rawBuckets (tag : String) (existed : Bool) (es : List Elem) (r : String) : List String :=
+  if es.any Elem.isRaw then
+    ["raw-" ++ tag ++ "-" ++ r] ++ (if existed then ["raw-" ++ tag ++ "-set-existed"] else []) ++
+    (match es with
+     | .raw :: _ :: _ => ["raw-first-of-many"]
+     | _ :: _ :: _ => ["raw-after-good-elements"]
+     | _ => [])
+  else []
+
 def opBuckets (env : RegexEnv) (t : Table) (op : Op) (res : Res) : List String :=
   let r := resStr res
+  (match op with
+   | .setAdd k n es => rawBuckets "setadd" (alLookup (k, n) t.sets).isSome es r
+   | .setReplace k n es => rawBuckets "setreplace" (alLookup (k, n) t.sets).isSome es r
+   | .setDel k n all es => rawBuckets (if all then "setdel-all" else "setdel-partial") (alLookup (k, n) t.sets).isSome es r
+   | _ => []) ++
   match op with
   | .setAdd k n es =>
       ["op-setadd-" ++ kindStr k ++ "-" ++ r] ++
